@@ -711,6 +711,10 @@ where
                 m.stamp += d;
                 if m.uncommitted && k > 0 {
                     m.tainted = true;
+                } else if let Some(base) = m.chain.last_mut() {
+                    // an unstamped-change write from a committed state only moves the stamp
+                    // of the baseline the next change record refers to
+                    base.stamp = m.stamp;
                 }
                 m.written();
                 Ok(String::new())
@@ -827,6 +831,7 @@ where
             VecOp::RollbackBefore(d) => {
                 let t = (m.stamp + 1).saturating_sub(*d);
                 // walk down the chain while the current stamp is >= t and a record exists
+                let mut progressed = false;
                 loop {
                     if m.stamp < t {
                         break;
@@ -836,21 +841,26 @@ where
                         // here. A hole in the chain (older records exist): refused, the
                         // vector stays on the committed state reached so far.
                         if m.records.range(..m.stamp).next().is_some() {
-                            m.uncommitted = false;
-                            m.truncated_since_commit = false;
+                            if progressed {
+                                m.uncommitted = false;
+                                m.truncated_since_commit = false;
+                            }
                             return Err("StampMismatch");
                         }
                         break;
                     };
                     m.restore(&target);
+                    progressed = true;
                     if m.chain.len() > 1 {
                         if m.chain.pop().is_some_and(|s| s.truncating) {
                             m.undone_trunc = true;
                         }
                     }
                 }
-                m.uncommitted = false;
-                m.truncated_since_commit = false;
+                if progressed || !m.uncommitted {
+                    m.uncommitted = false;
+                    m.truncated_since_commit = false;
+                }
                 Ok(format!("{}", m.stamp))
             }
         }
@@ -1152,6 +1162,17 @@ where
         if cfg.has("stamped_write") && !rollback_profile {
             v.push(VecOp::StampedWrite(1));
         }
+        if cfg.has("stamped_write_rb") && rollback_profile && clean && !m.tainted {
+            v.push(VecOp::StampedWrite(1));
+        }
+        // refused rollbacks with pending edits (C13): only where the model predicts a refusal
+        if cfg.has("rollback_dirty") && rollback_profile && !clean && !m.tainted {
+            if !m.records.contains_key(&m.stamp) {
+                v.push(VecOp::Rollback);
+                v.push(VecOp::RollbackBefore(1));
+                v.push(VecOp::RollbackBefore(1000));
+            }
+        }
         if cfg.has("reset") {
             v.push(VecOp::Reset);
         }
@@ -1340,8 +1361,9 @@ where
         // --- a refused / failed request has no effect (C13; C16 for rollbacks)
         // (a refused rollback_before may have made progress: it is compared with the model,
         // which stays on the committed state reached, not with the pre-state)
-        if expected.is_err() && result.is_err() && !matches!(op, VecOp::RollbackBefore(_)) {
-            let prop = if is_fault { "C16,C17" } else if is_rollback_kind { "C16" } else { "C13" };
+        let no_progress = self.model.stamp == pre_model.stamp && self.model.items == pre_model.items;
+        if expected.is_err() && result.is_err() && (!matches!(op, VecOp::RollbackBefore(_)) || no_progress) {
+            let prop = if is_fault { "C16,C17" } else if is_rollback_kind { "C13,C16" } else { "C13" };
             let now = self.observe().ok();
             if now != pre_obs {
                 viols.push(Violation {
